@@ -26,11 +26,13 @@ func c09f(nonce int) int { return nonce*7 + 3 }
 
 type c09call struct {
 	id, nonce int
-	impatient bool   // gives up after 50 ms: may fail with its deadline, nothing else
-	method    string // "" or "hold": c09f(nonce); "hold2": c09f(nonce)+1000003
-	done      bool
-	res       []interface{}
-	err       error
+	impatient bool // gives up after 50 ms: may fail with its deadline, nothing else
+	// queuedEarly: a reverse call issued before any provider listens (late provider): it sits in the queue
+	queuedEarly bool
+	method      string // "" or "hold": c09f(nonce); "hold2": c09f(nonce)+1000003
+	done        bool
+	res         []interface{}
+	err         error
 }
 
 // simPool runs submitted work as simulated tasks (the worker pool is a stub;
@@ -159,6 +161,11 @@ func c09Check(r *Run, kind, mode string, calls []*c09call, seen map[int]int) {
 				cls += ":" + c.err.Error()
 				if seen[c.nonce] == 0 {
 					cls += ":never-delivered"
+					if c.queuedEarly {
+						// queued at the caller's service before any provider had begun to fetch: no fetch was in
+						// progress that its registration could have raced with
+						cls += "-though-queued-before-the-provider-came"
+					}
 				}
 			}
 			r.Fail(cls, "call %d (nonce %d) failed with %v although the network is benign and every request was answered", c.id, c.nonce, c.err)
@@ -323,6 +330,13 @@ func c09Service(r *Run, sim *verifsim.Sim, kind string, pool bool, ncallers, per
 		}
 		return
 	}
+	// impatient: one caller gives up after 50 ms while the service holds every call for 100 ms: its answer arrives
+	// for a call nobody waits for any more, on a connection other calls are still pending on
+	impatientSvc := r.Plan(4) == 0
+	if impatientSvc {
+		g.notBefore = sim.Now() + 100*time.Millisecond
+		r.Param("impatient", true)
+	}
 	for i := 0; i < ncallers; i++ {
 		var mine []*c09call
 		for j := 0; j < perCaller; j++ {
@@ -331,9 +345,20 @@ func c09Service(r *Run, sim *verifsim.Sim, kind string, pool bool, ncallers, per
 			mine = append(mine, c)
 			calls = append(calls, c)
 		}
+		if impatientSvc && i == ncallers-1 {
+			mine[0].impatient = true
+		}
 		sim.Task(fmt.Sprintf("caller%02d", i), func() {
 			for _, c := range mine {
 				sim.Event("invoke", c.id, c.nonce, c.method)
+				if c.impatient {
+					ctx, cancel := context.WithTimeout(context.Background(), 50*time.Millisecond)
+					c.res, c.err = client.InvokeContext(ctx, c.method, []interface{}{c.nonce})
+					cancel()
+					c.done = true
+					sim.Event("return", c.id, fmt.Sprint(c.res), fmt.Sprint(c.err))
+					continue
+				}
 				c.res, c.err = client.Invoke(c.method, []interface{}{c.nonce})
 				c.done = true
 				sim.Event("return", c.id, fmt.Sprint(c.res), fmt.Sprint(c.err))
@@ -586,6 +611,8 @@ func c09Reverse(r *Run, sim *verifsim.Sim, kind string, ncallers, perCaller int)
 	g := newGate(sim, acts)
 	sim.AddSource(g)
 	nprov := 1 + r.Plan(2)
+	lateProvider := r.Plan(3) == 0
+	r.Param("late_provider", lateProvider)
 	var provs []*reverse.Provider
 	for p := 0; p < nprov; p++ {
 		client := fx.NewClient()
@@ -596,7 +623,14 @@ func c09Reverse(r *Run, sim *verifsim.Sim, kind string, ncallers, perCaller int)
 			return c09f(nonce)
 		}, "hold")
 		provs = append(provs, prov)
-		sim.Task(fmt.Sprintf("provider%d", p), func() { prov.Listen() })
+		sim.Task(fmt.Sprintf("provider%d", p), func() {
+			if lateProvider {
+				// the calls queue up at the caller's service before anybody fetches them
+				time.Sleep(80 * time.Millisecond)
+				verifsim.ForceYield(-14)
+			}
+			prov.Listen()
+		})
 	}
 	var calls []*c09call
 	id := 0
@@ -604,9 +638,11 @@ func c09Reverse(r *Run, sim *verifsim.Sim, kind string, ncallers, perCaller int)
 	// 50 ms: its result comes back, in one batch with its siblings', for a call nobody waits for any more - the
 	// siblings must get theirs all the same
 	impatientMode := r.Plan(3) == 0
+	impatientIdx := 0
 	if impatientMode {
 		g.notBefore = 100 * time.Millisecond
 		r.Param("impatient", true)
+		impatientIdx = r.Plan(ncallers) // not necessarily the head of the queue
 	}
 	for i := 0; i < ncallers; i++ {
 		var mine []*c09call
@@ -617,9 +653,10 @@ func c09Reverse(r *Run, sim *verifsim.Sim, kind string, ncallers, perCaller int)
 			calls = append(calls, c)
 		}
 		target := fmt.Sprintf("prov%d", i%nprov)
-		if impatientMode && i == 0 {
+		if impatientMode && i == impatientIdx {
 			mine[0].impatient = true
 		}
+		mine[0].queuedEarly = lateProvider
 		sim.Task(fmt.Sprintf("caller%02d", i), func() {
 			for _, c := range mine {
 				sim.Event("invoke", c.id, c.nonce, target)
